@@ -50,6 +50,33 @@
 (* - outputs over its own weight - stays at the offered rate and below the  *)
 (* configured maximum (PubTxRateLeCfgMax; on the recorded transaction:      *)
 (* TxRateLeCfgMax and TxPaysOfferedRate in SweepFeeTrace).                  *)
+(* Inputs of custom channels (a resolution blob) make the aux sweeper add an *)
+(* EXTRA OUTPUT to the sweep tx and an extra budget to the set: xout is the  *)
+(* value of that output (0: none; it is part of reqout - prepareSweepTx adds *)
+(* it to the required outputs) and xbudget the aux sweeper's budget          *)
+(* (BudgetInputSet.extraBudget, part of the request's budget).  `weight' is  *)
+(* the weight of the tx that is actually BUILT, extra output included: the   *)
+(* ceiling of the property is budget over THAT size, the fee function's      *)
+(* ending rate must be exactly it (InitFF: e \in EndRates), so that the tx   *)
+(* at the ceiling is one createAndCheckTx accepts (PubCeilByDeadline speaks  *)
+(* about published, i.e. accepted, transactions only).                       *)
+(*                                                                          *)
+(* ESTIMATOR / DEADLINE DOMAIN.  StartOf has the three regimes of            *)
+(* NewLinearFeeFunction: conf target <= 1 (flat at the ending rate), 2..1007 *)
+(* (FeeEstimateInfo.Estimate: error, below the relay fee -> error, capped at *)
+(* the ending rate) and >= 1008 (the relay fee, which on bitcoind is         *)
+(* max(minrelaytxfee, mempoolminfee)).  The relay fee may lie below, between *)
+(* or ABOVE the configured maximum and the budget rate; whatever its source, *)
+(* the starting rate is capped at the ending rate (ClampedStart), so that    *)
+(* nothing is offered above the ceiling and the rate never decreases.        *)
+(*                                                                          *)
+(* RESULTS.  Besides Published / Replaced / Failed / Fatal the publisher     *)
+(* reports Confirmed (handleTxConfirmed) and UnknownSpend                    *)
+(* (handleUnknownSpent: a tx the publisher does not know spends some of the  *)
+(* inputs; the result carries the next rate of the fee function - like a     *)
+(* failed bump - as the starting rate of the re-sweep of the other inputs).  *)
+(* All but Published / Replaced remove the record.  What the SWEEPER does    *)
+(* with a result, input by input, is module SweepLife.                       *)
 (*                                                                          *)
 (* ARITHMETIC.  All rates are integers in sat/kw, deltaFeeRate in msat/kw,  *)
 (* fees in sat.  FeeForWeight is integer (floor).  Three values are         *)
@@ -136,7 +163,8 @@ vars == <<ff, rq, pc, mode, tx, pub, res, last, g>>
 NoFF  == [live |-> FALSE, start |-> 0, end |-> 0, width |-> 0, pos |-> 0, cur |-> 0, delta |-> 0]
 NoRq  == [budget |-> 0, weight |-> 1, maxrate |-> 0, relay |-> 0, totalin |-> 0, reqout |-> 0,
           dust |-> 0, deadline |-> 0, sopt |-> -1, est |-> 0, prevmax |-> 0,
-          cfgvb |-> 0, inbudget |-> 0, indeadline |-> 0, pweight |-> 0, pfee |-> 0]
+          cfgvb |-> 0, inbudget |-> 0, indeadline |-> 0, pweight |-> 0, pfee |-> 0,
+          xout |-> 0, xbudget |-> 0]
 NoTx  == [err |-> "none", rate |-> 0, fee |-> 0, change |-> 0]
 NoPub == [n |-> 0, rate |-> 0, fee |-> 0, change |-> 0]
 NoRes == [event |-> "none", err |-> "none", rate |-> 0]
@@ -253,23 +281,24 @@ KwPerVb == 250
 CfgMax(q) == KwPerVb * q.cfgvb
 (* UtxoSweeper.sweep: the BumpRequest for an input set s                    *)
 (*   [weight, totalin, reqout, dust, inbudget, indeadline, prevmax,          *)
-(*    pweight, pfee]                                                         *)
+(*    pweight, pfee, xout, xbudget]   (reqout: required outputs of the       *)
+(*    inputs; the aux sweeper's extra output xout is added to it)            *)
 (* under the sweeper's configuration and environment c [maxvb, relay, est]   *)
 SweepReq(c, s) ==
-  [budget |-> s.inbudget, maxrate |-> KwPerVb * c.maxvb, deadline |-> s.indeadline,
-   sopt |-> SetStart(s.prevmax), weight |-> s.weight, totalin |-> s.totalin, reqout |-> s.reqout,
+  [budget |-> s.inbudget + s.xbudget, maxrate |-> KwPerVb * c.maxvb, deadline |-> s.indeadline,
+   sopt |-> SetStart(s.prevmax), weight |-> s.weight, totalin |-> s.totalin, reqout |-> s.reqout + s.xout,
    dust |-> s.dust, relay |-> c.relay, est |-> c.est, prevmax |-> s.prevmax,
    cfgvb |-> c.maxvb, inbudget |-> s.inbudget, indeadline |-> s.indeadline,
-   pweight |-> s.pweight, pfee |-> s.pfee]
+   pweight |-> s.pweight, pfee |-> s.pfee, xout |-> s.xout, xbudget |-> s.xbudget]
 
 (* UtxoSweeper.sweep builds the request p (= SweepReq(config, set) in the     *)
 (* model; in a trace: what the code built, judged by the Sweep* invariants)  *)
 (* and hands it to the publisher: Broadcast -> storeInitialRecord            *)
-Request(p) ==
-  /\ pc = "none"
+Install(p) ==
   /\ rq' = p
   /\ pc' = "ready" /\ mode' = "initial"
   /\ ff' = NoFF /\ tx' = NoTx /\ pub' = NoPub /\ res' = NoRes /\ last' = NoLast /\ g' = G0
+Request(p) == pc = "none" /\ Install(p)
 
 (* the sweeper offers the inputs of a failed attempt again, starting at the  *)
 (* rate the failed attempt handed back (sweeper.go markInputsPublishFailed); *)
@@ -278,9 +307,7 @@ Request(p) ==
 Regroup(p) ==
   /\ pc = "gone" /\ res.event = "Failed" /\ res.rate > 0
   /\ p.prevmax = res.rate          \* markInputsPublishFailed: every input of the failed set carries the rate
-  /\ rq' = p
-  /\ pc' = "ready" /\ mode' = "initial"
-  /\ ff' = NoFF /\ tx' = NoTx /\ pub' = NoPub /\ res' = NoRes /\ last' = NoLast /\ g' = G0
+  /\ Install(p)
 (* ... in the model: the same set again *)
 Retry == Regroup([rq EXCEPT !.sopt = res.rate, !.prevmax = res.rate])
 
@@ -394,12 +421,29 @@ Pub(ans) ==
   /\ pc' = "fin"
   /\ UNCHANGED <<ff, rq, mode, tx, last>>
 
-(* the handler returns: the result goes to the sweeper; Failed/Fatal remove *)
-(* the record                                                               *)
+(* the handler returns: the result goes to the sweeper; every result but    *)
+(* Published / Replaced removes the record (removeResult)                   *)
 Done ==
   /\ pc = "fin"
-  /\ pc' = IF res.event \in {"Failed", "Fatal"} THEN "gone" ELSE "mon"
+  /\ pc' = IF res.event \in {"Failed", "Fatal", "Confirmed", "UnknownSpend"} THEN "gone" ELSE "mon"
   /\ UNCHANGED <<ff, rq, mode, tx, pub, res, last, g>>
+
+(* processRecords finds the monitored tx confirmed: handleTxConfirmed       *)
+Confirmed ==
+  /\ pc = "mon"
+  /\ res' = [event |-> "Confirmed", err |-> "none", rate |-> ff.cur]
+  /\ pc' = "fin"
+  /\ UNCHANGED <<ff, rq, mode, tx, pub, last, g>>
+
+(* processRecords finds inputs of the monitored tx spent by a tx it does not *)
+(* know: handleUnknownSpent -> createUnknownSpentBumpResult ->               *)
+(* calculateRetryFeeRate (one Increment whose error is ignored)              *)
+UnknownSpend(r) ==
+  /\ pc = "mon"
+  /\ FFInc(r)
+  /\ res' = [event |-> "UnknownSpend", err |-> "unknownspend", rate |-> ff'.cur]
+  /\ pc' = "fin"
+  /\ UNCHANGED <<rq, mode, tx, pub>>
 
 (* a new block: handleFeeBumpTx -> IncreaseFeeRate(conf target); an error   *)
 (* or "not increased" ends the handler without a tx                         *)
@@ -413,7 +457,8 @@ Bump(height, r) ==
 
 -----------------------------------------------------------------------------
 Next == \/ \E p \in PNew : \E dl \in DeltaChoices(p.maxrate, p.ct, p.sopt, p.est, p.relay) : New(p, dl)
-        \/ \E r \in RateAt(ff, ff.pos + 1) \cup {ff.cur} : IncFF(r) \/ IncLoop(r) \/ IncRetry(r)
+        \/ \E r \in RateAt(ff, ff.pos + 1) \cup {ff.cur} : IncFF(r) \/ IncLoop(r) \/ IncRetry(r) \/ UnknownSpend(r)
+        \/ Confirmed
         \/ \E ct \in PConf : \E r \in RateAt(ff, NewPos(ct)) \cup {ff.cur} : BumpFF(ct, r)
         \/ \E p \in PReq : Request(p)
         \/ Retry
@@ -502,11 +547,13 @@ PubRegroupNoDecrease == (InPub /\ pub.n > 0) => pub.rate >= Min(rq.prevmax, ff.e
 (* function) is the configured maximum, the budget attached to the inputs    *)
 (* and their deadline                                                        *)
 SweepMaxIsConfigured  == InPub => rq.maxrate = CfgMax(rq)
-SweepBudgetIsInputs   == InPub => rq.budget = rq.inbudget
+SweepBudgetIsInputs   == InPub => rq.budget = rq.inbudget + rq.xbudget
 SweepDeadlineIsInputs == InPub => rq.deadline = rq.indeadline
 (* the property against the configuration and the inputs, not the request   *)
 PubRateLeCfgMax     == (InPub /\ pub.n > 0 /\ ~StartTrigger) => pub.rate <= CfgMax(rq)
-PubFeeLeInputBudget == (InPub /\ pub.n > 0) => pub.fee <= rq.inbudget
+PubFeeLeInputBudget == (InPub /\ pub.n > 0) => pub.fee <= rq.inbudget + rq.xbudget
+(* the aux sweeper's extra output is one of the required outputs             *)
+SweepExtraIsRequired == InPub => (rq.xout >= 0 /\ rq.xout <= rq.reqout)
 (* the published tx's OWN fee rate - its fee over its own weight, a parent   *)
 (* it may pay for is not its size - is no larger than the configured         *)
 (* maximum (up to a sub-dust change added to the fee: AbsorbDust)            *)
